@@ -284,19 +284,34 @@ def _cat_table():
 
 # ------------------------------------------------------------------ container inputs: slices and repeated positions
 
+def _to64(v):
+    if isinstance(v, onp.ndarray):
+        return v.astype(onp.float64)
+    if isinstance(v, dict):
+        return {k: _to64(x) for k, x in v.items()}
+    if isinstance(v, (tuple, list)):
+        return type(v)(_to64(x) for x in v)
+    return v
+
+
 def containers_factory(quick, seed):
     L = lib()
     ag, np, ab = L["ag"], L["np"], L["ab"]
     OUTS = ["T(x[0:2], x[0])", "T(x[0:2], x[1:3])", "T(x[1:], x[:2], x[::2])", "T(x[0], x[0])", "T(x[::-1], x[2])", "T(x[:2], x[:2])",
             "T(x[0:2] + T(x[2]), x[1])", "T(T(x[1]) + x[0:2], x[0])", "np.sum(x[0]) * x[1] + x[0]", "T(x[0:1], x[-1], x[0])",
             # the container itself (a dense container contribution) together with uses of its elements
-            "T(x, x[0])", "x + T(x[0] * x[1])", "T(x[1]) + x", "T(x, x)", "T(x[0] * x[1], x)", "T(x, x[0:2], x[2])"]
+            "T(x, x[0])", "x + T(x[0] * x[1])", "T(x[1]) + x", "T(x, x)", "T(x[0] * x[1], x)", "T(x, x[0:2], x[2])",
+            # array-valued outputs: the caller's cotangent ARRAY reaches several reads of the same leaf unchanged
+            "x[0] + x[0]", "x[0] + 3.0 * x[0]", "x[1] + x[0] + x[1]", "x[-1] + x[2]"]
 
     def h(ch):
         kind = ch.choose("container", ["tuple", "list"])
         out = ch.choose("out", OUTS)
         hist = ch.choose("history", list(itertools.product([0, 1], repeat=3)))
+        leaf_kind = ch.choose("leaf_dtype", ["float64", "float32-first", "float32-all"])
         leaves = [ro(onp.array([0.5, -1.0]) + i) for i in range(3)]
+        if leaf_kind != "float64":      # reduced-precision leaves meet float64 cotangents: no rule may swap the roles of accumulator and contribution
+            leaves = [_freeze(l.astype(onp.float32)) if (i == 0 or leaf_kind == "float32-all") else l for i, l in enumerate(leaves)]
         x = tuple(leaves) if kind == "tuple" else list(leaves)
         f = eval("lambda x: " + out, dict(np=np, T=lambda *a: ab.tuple(a)))
         problems = []
@@ -311,6 +326,8 @@ def containers_factory(quick, seed):
                 from autograd.core import vspace
                 vs = vspace(val)
                 cots = [_freeze(vs.ones()), _freeze(vs.scalar_mul(vs.ones(), 2.5))]
+                if leaf_kind != "float64":
+                    cots = [_freeze(_to64(c)) for c in cots]      # the caller hands in float64 cotangents
                 ref = [_bytes(ag.make_vjp(f)(x)[0](c)) for c in cots]
                 vjp, _ = ag.make_vjp(f)(x)
                 snaps = [_bytes(c) for c in cots]
@@ -334,11 +351,11 @@ def containers_factory(quick, seed):
                     problems.append("raised: " + str(e)[:80])
             except Exception as e:
                 problems.append("raised: %s: %s" % (type(e).__name__, str(e)[:80]))
-        return kind, out, hist, sorted(set(problems))
+        return kind, out, hist, sorted(set(problems)), leaf_kind
 
     def judge(ch, o):
-        kind, out, hist, problems = o
-        v = [violation(PROP, "containers", "-", "vjp", pr.split(":")[0], dict(container=kind), ch.choices, dict(out=out, history=list(hist)), pr, None,
+        kind, out, hist, problems, leaf_kind = o
+        v = [violation(PROP, "containers", "-", "vjp", pr.split(":")[0], dict(container=kind, leaf_dtype=leaf_kind), ch.choices, dict(out=out, history=list(hist), leaf_dtype=leaf_kind), pr, None,
                        "# container input (3 read-only (2,) arrays), f = lambda x: %s, vjp history %r" % (out, list(hist))) for pr in problems]
         return dict(v=v, nontrivial=True, outcome=(out, tuple(problems)), counts={}, sample=dict(choices=list(ch.choices), f="lambda x: " + out, history=list(hist), problems=problems))
 
